@@ -1133,3 +1133,130 @@ Proof.
   { subst c1 w. unfold cc_elems, cc_array; cbn. rewrite firstn_app, firstn_all, Nat.sub_diag. cbn. apply app_nil_r. }
   rewrite E1. subst c1 w. cbn. reflexivity.
 Qed.
+
+(* ------------------------------------------------------------------------------------------ *)
+(* 8. the concurrent audit writer's mutex is released on every path (failing writes included)   *)
+(* ------------------------------------------------------------------------------------------ *)
+Lemma cw_holders_cset : forall ls i l l',
+  nth_error ls i = Some l -> cw_holders (cset_nth ls i l') + cw_in_cs l = cw_holders ls + cw_in_cs l'.
+Proof.
+  unfold cw_holders, list_sum. induction ls as [|x ls IH]; intros [|i] l l' H;
+    cbn [map fold_right cset_nth nth_error] in *; try discriminate.
+  - inversion H; subst. lia.
+  - specialize (IH i l l' H). lia.
+Qed.
+
+Definition cw_inv (s : cw_sh) (ls : list cw_lo) : Prop :=
+  cw_holders ls = if cw_locked s then 1 else 0.
+
+Lemma cw_in_cs_le ls i l : nth_error ls i = Some l -> cw_in_cs l <= cw_holders ls.
+Proof.
+  unfold cw_holders, list_sum. revert i; induction ls as [|x ls IH]; intros [|i] H;
+    cbn [map fold_right nth_error] in *; try discriminate.
+  - inversion H; subst. lia.
+  - specialize (IH i H). lia.
+Qed.
+
+Lemma cw_step_inv fb s ls i l :
+  cw_inv s ls -> nth_error ls i = Some l ->
+  cw_inv (fst (cw_step false fb s l)) (cset_nth ls i (snd (cw_step false fb s l))).
+Proof.
+  intros Hinv Hi. unfold cw_inv in *.
+  pose proof (cw_holders_cset ls i l (snd (cw_step false fb s l)) Hi) as E.
+  pose proof (cw_in_cs_le ls i l Hi) as Le.
+  destruct l as [todo pc res]. unfold cw_step in *; cbn [cw_pcv cw_todo cw_res] in *.
+  destruct pc as [|ps|ps f|f]; unfold cw_in_cs in *; cbn [cw_pcv] in *.
+  - destruct todo; cbn in *; lia.
+  - destruct (cw_locked s) eqn:L; cbn in *; [rewrite L|]; lia.
+  - destruct ps as [|p ps]; [cbn in *; lia|]. destruct fb; cbn in *; lia.
+  - destruct (cw_locked s) eqn:L; cbn in *; lia.
+Qed.
+
+Lemma cw_inv_run : forall sched s ls, cw_inv s ls ->
+  cw_inv (fst (cw_run false sched (s, ls))) (snd (cw_run false sched (s, ls))).
+Proof.
+  induction sched as [|[i fb] sched IH]; intros s ls H; [exact H|].
+  cbn [cw_run fold_left cw_sys_step fst snd]. destruct (nth_error ls i) as [l|] eqn:E; [|apply IH, H].
+  pose proof (cw_step_inv fb s ls i l H E) as S. destruct (cw_step false fb s l) as [s' l']. apply IH, S.
+Qed.
+
+Lemma cw_inv_start wss : cw_inv cw_sh0 (map cw_start wss).
+Proof.
+  unfold cw_inv; cbn [cw_sh0 cw_locked]. induction wss as [|w wss IH]; [reflexivity|].
+  cbn [map]. change (cw_holders (cw_start w :: map cw_start wss)) with (cw_in_cs (cw_start w) + cw_holders (map cw_start wss)).
+  rewrite IH. reflexivity.
+Qed.
+
+(* for EVERY interleaving and EVERY outcome of every Output call: the mutex is held exactly when
+   one goroutine is between its Lock and its deferred Unlock; in particular it is free whenever no
+   Write call is in progress *)
+Theorem cw_lock_released : forall sched wss,
+  let st := cw_run false sched (cw_sh0, map cw_start wss) in
+  cw_holders (snd st) = (if cw_locked (fst st) then 1 else 0) /\
+  ((forall l, In l (snd st) -> cw_pcv l = CWIdle) -> cw_locked (fst st) = false).
+Proof.
+  intros sched wss st. pose proof (cw_inv_run sched _ _ (cw_inv_start wss)) as H. fold st in H.
+  split; [exact H|]. intro Hidle. unfold cw_inv in H.
+  assert (Z : cw_holders (snd st) = 0).
+  { clear H. induction (snd st) as [|x l IH]; [reflexivity|].
+    change (cw_holders (x :: l)) with (cw_in_cs x + cw_holders l).
+    rewrite IH by (intros; apply Hidle; right; auto).
+    unfold cw_in_cs. rewrite (Hidle x) by (left; auto). reflexivity. }
+  destruct (cw_locked (fst st)); [lia | reflexivity].
+Qed.
+
+(* work left in a goroutine, counted in steps *)
+Definition cw_size (l : cw_lo) : nat :=
+  list_sum (map (fun ps => 4 + length ps) (cw_todo l)) +
+  match cw_pcv l with
+  | CWIdle => 0 | CWLock ps => 3 + length ps | CWIn ps _ => 2 + length ps | CWUnlock _ => 1
+  end.
+
+Lemma cw_holder_exists : forall ls, 1 <= cw_holders ls -> exists i l, nth_error ls i = Some l /\ cw_in_cs l = 1.
+Proof.
+  induction ls as [|x ls IH]; intro H; [cbn in H; lia|].
+  change (cw_holders (x :: ls)) with (cw_in_cs x + cw_holders ls) in H.
+  destruct (cw_in_cs x) eqn:E.
+  - destruct (IH H) as (i & l & Hi & Hl). exists (S i), l. auto.
+  - exists 0, x. split; auto. unfold cw_in_cs in *. destruct (cw_pcv x); congruence.
+Qed.
+
+(* NO DEADLOCK: in every reachable state in which some goroutine still has work, some goroutine
+   makes progress at its next step, whatever the outcome of its write; as cw_size strictly
+   decreases, every Write call of every goroutine completes *)
+Theorem cw_no_deadlock : forall sched wss,
+  let st := cw_run false sched (cw_sh0, map cw_start wss) in
+  (exists l, In l (snd st) /\ cw_busy l = true) ->
+  exists i l, nth_error (snd st) i = Some l /\
+    forall fb, cw_size (snd (cw_step false fb (fst st) l)) < cw_size l.
+Proof.
+  intros sched wss st (l0 & Hin & Hbusy).
+  pose proof (cw_inv_run sched _ _ (cw_inv_start wss)) as H. fold st in H. unfold cw_inv in H.
+  assert (Prog : forall l, (cw_in_cs l = 1 \/ (cw_locked (fst st) = false /\ cw_busy l = true)) ->
+                 forall fb, cw_size (snd (cw_step false fb (fst st) l)) < cw_size l).
+  { intros [todo pc res] Hc fb. unfold cw_step, cw_size, cw_in_cs, cw_busy, list_sum in *; cbn [cw_pcv cw_todo cw_res] in *.
+    destruct pc as [|ps|ps f|f].
+    - destruct Hc as [Hc|[_ Hc]]; [discriminate|]. destruct todo; [discriminate|].
+      cbn [snd cw_todo cw_pcv map fold_right length]. lia.
+    - destruct Hc as [Hc|[L _]]; [discriminate|]. rewrite L. cbn [snd cw_todo cw_pcv map fold_right length]. lia.
+    - destruct ps as [|p ps]; [cbn [snd cw_todo cw_pcv map fold_right length]; lia|].
+      destruct fb; cbn [snd cw_todo cw_pcv map fold_right length]; lia.
+    - cbn [snd cw_todo cw_pcv map fold_right length]. lia. }
+  destruct (cw_locked (fst st)) eqn:L.
+  - destruct (cw_holder_exists (snd st)) as (i & l & Hi & Hl); [lia|].
+    exists i, l. split; auto.
+  - apply In_nth_error in Hin as [i Hi]. exists i, l0. split; auto.
+Qed.
+
+(* the variant with an explicit Unlock after the write loop and an early `return err`: after ONE
+   failed write the mutex stays locked with no holder, and every later Write blocks forever *)
+Definition cw_bad_sched := [(0, false); (0, false); (0, true); (1, false); (1, false); (1, true)].
+Theorem cw_early_return_refuted :
+  let st := cw_run true cw_bad_sched (cw_sh0, [cw_start [[[1%N]; [2%N]]]; cw_start [[[3%N]]]]) in
+  cw_locked (fst st) = true /\ cw_holders (snd st) = 0 /\
+  exists l, nth_error (snd st) 1 = Some l /\ cw_busy l = true /\
+            forall fb, cw_step true fb (fst st) l = (fst st, l).
+Proof.
+  vm_compute. split; [reflexivity|]. split; [reflexivity|].
+  eexists. split; [reflexivity|]. split; [reflexivity|]. intros []; reflexivity.
+Qed.
